@@ -7,6 +7,8 @@
 (*   n      number of nodes; node 1 is the top directory "r"               *)
 (*   par    par[k] = parent node (0: directly below the world directory;   *)
 (*          several top-level directories = unrelated packages)            *)
+(*   up     up[k]: the directory name is written in upper case ("B"), so   *)
+(*          that case-sensitive and (?i) exclusion entries differ on it    *)
 (*   ext    ext[k]: the directory is named like its first sibling plus a   *)
 (*          suffix ("a" / "ax"): one name is a STRING prefix of the other  *)
 (*          although neither directory contains the other                  *)
@@ -33,6 +35,7 @@
 EXTENDS Naturals, Sequences, FiniteSets, TLC, Json
 
 CONSTANTS MaxNodes,       \* largest tree
+          ExportMod,      \* every world is model checked; those with WHash % ExportMod = 0 are exported for replay
           PayloadVariants, \* subset of {0, 1, 2}: rotations of the payload placement tried per (tree, configured set)
           Family          \* "discovery" | "inherit" | "none" (trace validation: W comes from the trace)
 
@@ -49,7 +52,7 @@ Lab == <<"r", "a", "b", "c", "d">>
 PlainKinds == {"go", "test", "empty"}
 FreeKinds  == {"tagged", "testdata", "under", "dot", "vendor", "submod"}
 HidingKinds == FreeKinds \ {"tagged"}          \* hide themselves and everything below from `...` patterns
-NExcl == 6
+NExcl == 9
 
 Nodes == 1..W.n
 \* first sibling (same parent, smaller index) of k in world w; 0 if there is none
@@ -57,13 +60,17 @@ FirstSibling(w, k) == IF \E j \in 1..(k - 1) : w.par[j] = w.par[k]
                       THEN CHOOSE j \in 1..(k - 1) : w.par[j] = w.par[k] /\ \A i \in 1..(j - 1) : w.par[i] # w.par[k]
                       ELSE 0
 NameKinds == {"go", "test", "empty", "tagged", "submod"}          \* kinds whose directory name is free
-ExtOK(w, k) == w.ext[k] => /\ FirstSibling(w, k) # 0 /\ w.kind[k] \in NameKinds
-                           /\ w.kind[FirstSibling(w, k)] \in NameKinds /\ ~w.ext[FirstSibling(w, k)]
+ExtOK(w, k) == /\ w.ext[k] => /\ FirstSibling(w, k) # 0 /\ w.kind[k] \in NameKinds
+                              /\ w.kind[FirstSibling(w, k)] \in NameKinds /\ ~w.ext[FirstSibling(w, k)]
+                              /\ ~w.up[FirstSibling(w, k)]
+               /\ w.up[k] => w.kind[k] \in NameKinds /\ ~w.ext[k] /\ k > 1
+UpLab == <<"R", "A", "B", "C", "D">>
 Label(k) == CASE W.kind[k] = "testdata" -> "testdata"
               [] W.kind[k] = "vendor"   -> "vendor"
               [] W.kind[k] = "under"    -> "_" \o Lab[k]
               [] W.kind[k] = "dot"      -> "." \o Lab[k]
               [] W.ext[k]               -> Lab[FirstSibling(W, k)] \o "x"
+              [] W.up[k]                -> UpLab[k]
               [] OTHER                  -> Lab[k]
 
 RECURSIVE Anc(_)
@@ -77,13 +84,22 @@ HasGo(k) == W.kind[k] = "go"
 
 \* ------------------------------------------------------------------ exclusion lists (Go regexps, see RecursiveMC)
 \* value -> list of patterns; the concrete regexps are in ExclPatterns, their meaning on a node in PatMatch.
-ExclPatterns == << <<"/b$">>, <<"/a(/|$)">>, <<"/r/[a-z]$">>, <<".">>, <<"/b$", "/r/[a-z]$">>, <<"/a$">> >>
+\* A LIST excludes a package iff SOME ENTRY ALONE matches it.  Lists 7-9 have entries that would interact if they were
+\* concatenated into one expression: an inline flag in an earlier / a later entry, per-entry anchors, an entry that
+\* is itself an alternation.
+ExclPatterns == << <<"/b$">>, <<"/a(/|$)">>, <<"/r/[a-z]$">>, <<".">>, <<"/b$", "/r/[a-z]$">>, <<"/a$">>,
+                   <<"(?i)/C(/|$)", "/b$">>, <<"^example\\.com/w/[^/]+/r$", "/c$">>, <<"/a|/b$", "(?i)/D$">> >>
 PatMatch(p, k) ==
   CASE p = "/b$"        -> Label(k) = "b"
     [] p = "/a(/|$)"    -> \E j \in Anc(k) \cup {k} : Label(j) = "a"
     [] p = "/r/[a-z]$"  -> W.par[k] = 1 /\ Label(k) = Lab[k]
     [] p = "."          -> TRUE
     [] p = "/a$"        -> Label(k) = "a"
+    [] p = "(?i)/C(/|$)" -> \E j \in Anc(k) \cup {k} : Label(j) \in {"c", "C"}
+    [] p = "^example\\.com/w/[^/]+/r$" -> W.par[k] = 0 /\ Label(k) = "r"
+    [] p = "/c$"        -> Label(k) = "c"
+    [] p = "/a|/b$"     -> (\E j \in Anc(k) \cup {k} : Label(j) \in {"a", "ax"}) \/ Label(k) = "b"
+    [] p = "(?i)/D$"    -> Label(k) \in {"d", "D"}
 XMatch(e, k) == e # 0 /\ \E j \in 1..Len(ExclPatterns[e]) : PatMatch(ExclPatterns[e][j], k)
 
 \* ------------------------------------------------------------------ contract
@@ -146,20 +162,20 @@ ExclPairs == {<<0, 0>>} \cup {<<e, 0>> : e \in 1..NExcl} \cup {<<0, e>> : e \in 
 Tup(n, F(_)) == CASE n = 1 -> <<F(1)>> [] n = 2 -> <<F(1), F(2)>> [] n = 3 -> <<F(1), F(2), F(3)>>
                   [] n = 4 -> <<F(1), F(2), F(3), F(4)>> [] n = 5 -> <<F(1), F(2), F(3), F(4), F(5)>>
 Const(n, v) == Tup(n, LAMBDA k : v)
-\* at most one directory named after its sibling
-ExtVecs(n) == {Tup(n, LAMBDA k : k = x) : x \in 0..n}
+\* at most one directory with a special name: <<ext vector, up vector>>
+NameVecs(n) == {<<Tup(n, LAMBDA k : k = x), Const(n, FALSE)>> : x \in 0..n} \cup {<<Const(n, FALSE), Tup(n, LAMBDA k : k = x)>> : x \in 2..n}
 
 \* Worlds are not enumerated as one big set of initial states (TLC computes initial states in one thread and
 \* far too slowly for 10^4..10^5 records): a behaviour first CHOOSES its world in three small steps (tree, kinds,
 \* configuration), then runs Initialize on it.  Which configurations are offered depends on the family.
-Blank(n, p) == [n |-> n, par |-> p, ext |-> Const(n, FALSE), kind |-> Const(n, "go"), on |-> Const(n, FALSE), rec |-> Const(n, "U"),
+Blank(n, p) == [n |-> n, par |-> p, ext |-> Const(n, FALSE), up |-> Const(n, FALSE), kind |-> Const(n, "go"), on |-> Const(n, FALSE), rec |-> Const(n, "U"),
                 all |-> Const(n, "U"), sn |-> Const(n, FALSE), excl |-> Const(n, 0),
                 root |-> [rec |-> "U", all |-> "U", excl |-> 0]]
 EmptyWorld == Blank(1, <<0>>)
 
 \* family "discovery": only the top package is configured (recursive, at either level); every kind of directory
 DiscoveryConfigs(w) ==
-  {[n |-> w.n, par |-> w.par, ext |-> w.ext, kind |-> w.kind,
+  {[n |-> w.n, par |-> w.par, ext |-> w.ext, up |-> w.up, kind |-> w.kind,
     on |-> Tup(w.n, LAMBDA k : k = 1), rec |-> Tup(w.n, LAMBDA k : IF k = 1 THEN rm[1] ELSE "U"), all |-> Const(w.n, "U"),
     sn |-> Tup(w.n, LAMBDA k : k = 1), excl |-> Tup(w.n, LAMBDA k : IF k = 1 THEN xp[1] ELSE 0),
     root |-> [rec |-> rm[2], all |-> "T", excl |-> xp[2]]] :
@@ -173,11 +189,11 @@ Payload(v, n, onset) ==
 
 \* one exclusion list somewhere (top level = node 0), or two different ones at both levels
 ExclPlacements(onset) ==
-  {[at |-> 0, v |-> 0, rv |-> 0]} \cup {[at |-> a, v |-> v, rv |-> 0] : a \in onset, v \in 1..3}
-    \cup {[at |-> 0, v |-> 0, rv |-> v] : v \in 1..3} \cup {[at |-> a, v |-> 1, rv |-> 2] : a \in onset}
+  {[at |-> 0, v |-> 0, rv |-> 0]} \cup {[at |-> a, v |-> v, rv |-> 0] : a \in onset, v \in {1, 2, 3, 7}}
+    \cup {[at |-> 0, v |-> 0, rv |-> v] : v \in {1, 2, 3, 9}} \cup {[at |-> a, v |-> 1, rv |-> 2] : a \in onset}
 
 InheritWorld(w, onset, rv, rr, pl, xpl) ==
-  [n |-> w.n, par |-> w.par, ext |-> w.ext, kind |-> Const(w.n, "go"),
+  [n |-> w.n, par |-> w.par, ext |-> w.ext, up |-> w.up, kind |-> Const(w.n, "go"),
    on |-> Tup(w.n, LAMBDA k : k \in onset), rec |-> Tup(w.n, LAMBDA k : IF k \in onset THEN rv[k] ELSE "U"),
    all |-> pl.all, sn |-> pl.sn,
    excl |-> Tup(w.n, LAMBDA k : IF k = xpl.at THEN xpl.v ELSE 0),
@@ -198,7 +214,7 @@ DeepConfigs(w) ==
           onset \in OnSets(w.n)}
 
 \* family "order" (Order.tla, C06): a generation profile g is attached; see Order.tla for its meaning
-WithG(w, g) == [n |-> w.n, par |-> w.par, ext |-> w.ext, kind |-> w.kind, on |-> w.on, rec |-> w.rec, all |-> w.all, sn |-> w.sn,
+WithG(w, g) == [n |-> w.n, par |-> w.par, ext |-> w.ext, up |-> w.up, kind |-> w.kind, on |-> w.on, rec |-> w.rec, all |-> w.all, sn |-> w.sn,
                 excl |-> w.excl, root |-> w.root, g |-> g]
 Profiles == {[mode |-> m, layout |-> l, ents |-> e] :
                m \in {"none", "same", "differ-valid", "differ-invalid", "unfetchable"}, l \in {"perpkg", "periface"}, e \in {0, 2}}
@@ -218,7 +234,11 @@ OrderDeepConfigs(w) ==
             g \in {[mode |-> m, layout |-> "perpkg", ents |-> 0] : m \in {"same", "differ-valid"}}} :
           onset \in {s \in SUBSET (1..w.n) : Cardinality(s) = 3}}
 
-WellFormed(w) == \A k \in 1..w.n : (w.on[k] => w.kind[k] = "go") /\ ExtOK(w, k)
+\* special directory names (ext / up) are combined with plain kinds and with recursive on / not written only: the
+\* dimensions are all present, their full cross product is not needed
+SpecialName(w) == \E k \in 1..w.n : w.ext[k] \/ w.up[k]
+WellFormed(w) == /\ \A k \in 1..w.n : (w.on[k] => w.kind[k] = "go") /\ ExtOK(w, k)
+                 /\ SpecialName(w) => \A k \in 1..w.n : w.kind[k] \in PlainKinds /\ w.rec[k] # "F"
 
 \* ------------------------------------------------------------------ choosing the world
 Absent == [present |-> FALSE, marker |-> 0, rec |-> "U", all |-> "U", excl |-> 0, prefix |-> ""]
@@ -234,10 +254,11 @@ ChooseTree == /\ pc = "choose-tree"
               /\ UNCHANGED <<pk, pass, pending, recq>>
 
 ChooseKinds == /\ pc = "choose-kinds"
-               /\ \E xv \in (IF UseExt(W.n) THEN ExtVecs(W.n) ELSE {Const(W.n, FALSE)}) :
-                    /\ IF Family = "discovery" THEN \E kv \in KindVecs(W.n) : W' = [W EXCEPT !.kind = kv, !.ext = xv]
-                                               ELSE W' = [W EXCEPT !.ext = xv]
+               /\ \E xv \in (IF UseExt(W.n) THEN NameVecs(W.n) ELSE {<<Const(W.n, FALSE), Const(W.n, FALSE)>>}) :
+                    /\ IF Family = "discovery" THEN \E kv \in KindVecs(W.n) : W' = [W EXCEPT !.kind = kv, !.ext = xv[1], !.up = xv[2]]
+                                               ELSE W' = [W EXCEPT !.ext = xv[1], !.up = xv[2]]
                     /\ \A k \in 1..W.n : ExtOK(W', k)
+                    /\ SpecialName(W') => \A k \in 1..W.n : W'.kind[k] \in PlainKinds
                /\ pc' = "choose-config"
                /\ UNCHANGED <<pk, pass, pending, recq>>
 
@@ -315,6 +336,16 @@ Expect == [k \in 1..W.n |->
               xm |-> [e \in 1..NExcl |-> XMatch(e, k)]]]
 ImplTable == [k \in 1..W.n |-> [src |-> Src(k), all |-> pk[k].all, prefix |-> pk[k].prefix, rec |-> pk[k].rec]]
 CaseRec == [W |-> W, expect |-> Expect, impl |-> ImplTable, patterns |-> ExclPatterns]
-Emit == IF pc = "done" THEN PrintT(<<"CASE", ToJson(CaseRec)>>) ELSE TRUE
+\* a cheap deterministic hash of the world, only used to thin the export (never for a verdict)
+KindNum(kd) == CASE kd = "go" -> 0 [] kd = "test" -> 1 [] kd = "empty" -> 2 [] kd = "tagged" -> 3 [] kd = "testdata" -> 4
+                 [] kd = "under" -> 5 [] kd = "dot" -> 6 [] kd = "vendor" -> 7 [] kd = "submod" -> 8
+TNum(x) == CASE x = "T" -> 1 [] x = "F" -> 2 [] OTHER -> 0
+BNum(b) == IF b THEN 1 ELSE 0
+NodeHash(k) == W.par[k] + 3 * BNum(W.on[k]) + 5 * TNum(W.rec[k]) + 7 * W.excl[k] + 11 * BNum(W.ext[k]) + 13 * BNum(W.up[k])
+               + 17 * KindNum(W.kind[k]) + 19 * BNum(W.sn[k]) + 23 * TNum(W.all[k])
+RECURSIVE SumHash(_)
+SumHash(k) == IF k = 0 THEN 0 ELSE (k + 1) * NodeHash(k) + SumHash(k - 1)
+WHash == SumHash(W.n) + 29 * W.root.excl + 31 * TNum(W.root.rec) + 37 * TNum(W.root.all)
+Emit == IF pc = "done" /\ WHash % ExportMod = 0 THEN PrintT(<<"CASE", ToJson(CaseRec)>>) ELSE TRUE
 view == <<W, pk, pc, pass, pending, SeqSet(recq), IF pc = "loop2" THEN recq ELSE << >> >>
 =============================================================================
